@@ -208,10 +208,14 @@ impl G<'_> {
                 None => self.r.fork(),
             };
             let rare = wr.coin(sh.p_rare_outcome);
+            // unnamed chance nodes with identical distributions (fair coins) stay separate infosets
+            let fair = info.is_none() && !rare && wr.coin(0.2);
             let int_w = sh.integer_weights;
             let weights: Vec<f64> = (0..n)
                 .map(|i| {
-                    if int_w {
+                    if fair {
+                        1.0
+                    } else if int_w {
                         if rare && i == 0 && n > 1 {
                             1.0
                         } else if rare {
@@ -323,11 +327,13 @@ pub fn cli_game(r: &mut Rng, min_infosets: usize, max_nodes: usize) -> (MNode, &
     // a lottery: one outcome of an unnamed chance node has probability ~1e-17 and everything
     // behind it pays ~1e17 times more, so that it still contributes order one to every utility
     let g = if r.coin(0.06) { lottery(&g, r).unwrap_or(g) } else { g };
-    // a third of the games carry multi-byte names (order of the names is preserved)
-    if r.coin(0.3) {
-        (unicode_names(&g), shape)
-    } else {
-        (g, shape)
+    // name patterns: multi-byte names; names that need escaping (quotes, backslashes); numeric-
+    // looking infoset names that coincide across the two players (names are per player)
+    match r.below(20) {
+        0..=5 => (unicode_names(&g), shape),
+        6..=7 => (escaped_names(&g), shape),
+        8..=9 => (numeric_names(&g), shape),
+        _ => (g, shape),
     }
 }
 
@@ -372,6 +378,38 @@ pub fn lottery(g: &MNode, r: &mut Rng) -> Option<MNode> {
     }
     let mut which = r.below(n as u64) as isize;
     Some(go(g, &mut which))
+}
+
+fn escaped_names(n: &MNode) -> MNode {
+    match n {
+        MNode::T(x) => MNode::T(*x),
+        MNode::C { info, outs } => MNode::C {
+            info: info.as_ref().map(|i| i.replace('D', "D\\")),
+            outs: outs.iter().map(|(a, w, c)| (a.replace('o', "o\""), *w, escaped_names(c))).collect(),
+        },
+        MNode::P { player, info, acts } => MNode::P {
+            player: *player,
+            info: info.replace('X', "X\"").replace('Y', "Y\\\""),
+            acts: acts.iter().map(|(a, c)| (a.replace('a', "say \"a\\"), escaped_names(c))).collect(),
+        },
+    }
+}
+
+/// infosets of each player renamed "1", "2", ... in order of first appearance (the same strings
+/// for both players)
+fn numeric_names(g: &MNode) -> MNode {
+    fn go(n: &MNode, maps: &mut [std::collections::BTreeMap<String, String>; 2]) -> MNode {
+        match n {
+            MNode::T(x) => MNode::T(*x),
+            MNode::C { info, outs } => MNode::C { info: info.clone(), outs: outs.iter().map(|(a, w, c)| (a.clone(), *w, go(c, maps))).collect() },
+            MNode::P { player, info, acts } => {
+                let k = maps[*player].len() + 1;
+                let name = maps[*player].entry(info.clone()).or_insert_with(|| k.to_string()).clone();
+                MNode::P { player: *player, info: name, acts: acts.iter().map(|(a, c)| (a.clone(), go(c, maps))).collect() }
+            }
+        }
+    }
+    go(g, &mut Default::default())
 }
 
 fn unicode_names(n: &MNode) -> MNode {
